@@ -19,7 +19,7 @@ MC_IdOf == [alice |-> [s1 |-> "iA1"], bob |-> [s1 |-> "iB1"]]
 MC_IdCOf == [sac |-> "cS"]
 MC_Canon == {"sac"}
 MC_Metas == [good    |-> [nameLen |-> 10, symLen |-> 4, decimals |-> 7, utf8 |-> TRUE, style |-> "ascii"],
-             sacMeta |-> [nameLen |-> 6,  symLen |-> 6, decimals |-> 7, utf8 |-> TRUE, style |-> "ascii"]]
+             sacMeta |-> [nameLen |-> 6,  symLen |-> 6, decimals |-> 7, utf8 |-> TRUE, style |-> "sac"]]
 MC_Keys == {"k0"}
 MC_Deliveries == [d0 |-> [key |-> "k0", srcChain |-> "axelar", srcAddr |-> "hub", dest |-> "its", payload |-> "in_n"]]
 
@@ -105,6 +105,7 @@ C05_Out == Step(Out)
 C05_In == Step(In)
 C05_Frame == Step(Frame)
 C05_NonNegative == NonNegative(st)
+Compose == Step(ComposeStep)
 
 ASSUME PrintT(<<"INST", ToJson(InstBase(RawPayloads, <<"r9">>))>>)
 Dump == DumpNode(st, EnabledActs(st))
